@@ -1310,4 +1310,88 @@ theorem isotxsNumRecords_ge_two (chiFlag : Int) (ords : List Int) : 2 ≤ isotxs
 
 example : recordOffsets [3, 2, 5] = [0, 3, 5] ∧ isotxsNumRecords 1 [1, 0, 2, -1] = 4 ∧ revGroup 33 2 = 30 := by decide
 
+/-! ### the Ascii record classes with `format` AND `float` modelled: no hypothesis about the host is left
+
+`asciiRealM` reads a real field with `parseFloatText` (exact decimal reading of the E-format text, then correct
+rounding to the nearest double, ties to even - compared with Python's `float` on every run). Its domain `ok` is a
+decidable predicate of the value: finite, text exactly 24 columns, and the text converts back to the value. The Ascii
+classes have no `rwLong`: `asciiLong` has the empty domain, so a program that writes a long is simply not `WF`. -/
+
+theorem asciiRealM_roundtrip (declared : Nat) : (asciiRealM declared).RT := by
+  intro v rest hv
+  obtain ⟨_, h2, h3⟩ := hv
+  simp only [asciiRealM]
+  rw [List.take_left' h2, List.drop_left' h2, h3]
+
+theorem asciiLong_roundtrip : asciiLong.RT := fun _ _ h => False.elim h
+
+inductive IsAsciiM : {β : Type} → Codec β → Prop
+  | int : IsAsciiM asciiInt
+  | long : IsAsciiM asciiLong
+  | str (len : Nat) : IsAsciiM (asciiStr len)
+  | real (declared : Nat) : IsAsciiM (asciiRealM declared)
+
+def RW.AsciiM {α} : RW α → Prop
+  | .done _ => True
+  | .prim c v k => IsAsciiM c ∧ RW.AsciiM (k v)
+
+def File.AsciiM {α} : File α → Prop
+  | .done _ => True
+  | .record body k => body.AsciiM ∧ File.AsciiM (k body.write.2.2)
+
+theorem IsAsciiM.rt {β} {c : Codec β} (hc : IsAsciiM c) : c.RT := by
+  cases hc
+  · exact asciiInt_roundtrip
+  · exact asciiLong_roundtrip
+  · exact asciiStr_roundtrip _
+  · exact asciiRealM_roundtrip _
+
+theorem RW.AsciiM.rt {α} (p : RW α) (hp : p.AsciiM) : p.RT := by
+  induction p with
+  | done a => trivial
+  | prim c v k ih => exact ⟨hp.1.rt, ih v hp.2⟩
+
+theorem File.AsciiM.rt {α} (f : File α) (hf : f.AsciiM) : f.RT := by
+  induction f with
+  | done a => trivial
+  | record body k ih => exact ⟨RW.AsciiM.rt body hf.1, ih _ hf.2⟩
+
+/-- **ASCII files read back** - full: no hypothesis about the host's formatting or parsing. `WF` asks of every value
+written only decidable things: integers (and declared counts) of at most nine digits, reals inside `asciiRealM.ok`,
+text within its field without trailing blanks, no `rwLong`. -/
+theorem file_roundtrip_ascii {α} (f : File α) (hf : f.AsciiM) (h : f.WF asciiFrame) (rest : Bytes) :
+    f.read asciiFrame ((f.write asciiFrame).1 ++ rest) = some ((f.write asciiFrame).2, rest) :=
+  file_roundtrip asciiFrame asciiInt_roundtrip f (File.AsciiM.rt f hf) h rest
+
+theorem asciiCodecsM_closed {α} : asciiCodecsM.Closed (RW.AsciiM (α := α)) where
+  ci := fun v _ h => ⟨IsAsciiM.int, h v⟩
+  cl := fun v _ h => ⟨IsAsciiM.long, h v⟩
+  cf := fun v _ h => ⟨IsAsciiM.real 4, h v⟩
+  cd := fun v _ h => ⟨IsAsciiM.real 8, h v⟩
+  cs := fun len v _ h => ⟨IsAsciiM.str len, h v⟩
+
+theorem schema_asciiM (s : FileS) (env0 : Env) (inp : List Val) : (schemaFile asciiCodecsM s env0 inp).AsciiM :=
+  FileS.toFile_closed (Qr := RW.AsciiM) (Qf := File.AsciiM) asciiCodecsM_closed (fun _ => trivial)
+    (fun _ _ hb hk => ⟨hb, hk _⟩) s _ _ (fun _ => trivial)
+
+/-- **Read-back for every schema (ASCII)** - full: for every file schema, every assignment of the values that are not
+in the file and every container whose values are in the Ascii routines' (decidable) domains, reading the text the
+writer produced returns exactly the header values and the data the writer saw. Neither `FloatParseSpec` nor a
+restriction on `rwLong` is assumed: a schema that writes a long is not `WF` in ASCII (the classes have no such
+routine). -/
+theorem schema_roundtrip_ascii (s : FileS) (env0 : Env) (inp : List Val)
+    (h : (schemaFile asciiCodecsM s env0 inp).WF asciiFrame) (rest : Bytes) :
+    (schemaFile asciiCodecsM s env0 inp).read asciiFrame
+        (((schemaFile asciiCodecsM s env0 inp).write asciiFrame).1 ++ rest)
+      = some (((schemaFile asciiCodecsM s env0 inp).write asciiFrame).2, rest) :=
+  file_roundtrip_ascii _ (schema_asciiM s env0 inp) h rest
+
+/-- +0.0 and 1.5 are inside the real field's domain; 1e-100 (three exponent digits) and +inf are not -/
+example : (asciiRealM 8).ok 0 := by decide
+example : (asciiRealM 8).ok 4609434218613702656 := by decide +kernel
+example : ¬ (asciiRealM 4).ok 3110860544497550640 := by decide +kernel
+example : ¬ (asciiRealM 4).ok 9218868437227405312 := by decide
+/-- a long has no ASCII form: the one-field program is not well-formed -/
+example : ¬ (RW.prim asciiLong 5 (fun x => RW.done x)).WF := fun h => h.1
+
 end ArmiVerif.Cccc
